@@ -145,10 +145,14 @@ fn exhaustive_maps(report: &Report, sink: &Sink, small: &Small, heavy_cap: usize
                 None
             };
             match guarded(|| check_binary(&x, &y, heavy)) {
-                Ok(Ok(n)) => ops += n,
-                Ok(Err((c, d))) => sink.violation_lazy(&format!("treemap:{c}"), &d, || {
-                    fail_witness(report.seed, "exhaustive-maps", &d, json!({"a": x.log, "b": y.log, "universe": format!("{small:?}")}))
-                }),
+                Ok((n, fails)) => {
+                    ops += n;
+                    for (c, d) in fails {
+                        sink.violation_lazy(&format!("treemap:{c}"), &d, || {
+                            fail_witness(report.seed, "exhaustive-maps", &d, json!({"a": x.log, "b": y.log, "universe": format!("{small:?}")}))
+                        });
+                    }
+                }
                 Err(p) => sink.violation_lazy("treemap:panic-in-set-operation", &p, || {
                     fail_witness(report.seed, "exhaustive-maps", &p, json!({"a": x.log, "b": y.log}))
                 }),
@@ -194,8 +198,13 @@ fn exhaustive_masks(report: &Report, sink: &Sink, small: &Small) {
         for (j, other) in masks.iter().enumerate() {
             let extra = &extras[(i as usize + j) % extras.len()];
             match guarded(|| check_mask_ops(a, &other.2, extra, false)) {
-                Ok(Ok(k)) => n += k,
-                Ok(Err((c, d))) => sink.violation_lazy(&format!("mask:{c}"), &d, || wit(&d, Some(other), Some(extra))),
+                Ok((k, fails)) => {
+                    n += k;
+                    for (c, d) in fails {
+                        let pre = if c.starts_with("mask-") { "mask:" } else { "treemap:" };
+                        sink.violation_lazy(&format!("{pre}{c}"), &d, || wit(&d, Some(other), Some(extra)));
+                    }
+                }
                 Err(p) => sink.violation_lazy("mask:panic-in-mask-operation", &p, || wit(&p, Some(other), Some(extra))),
             }
             let nt = (*ai != 0 || *bi != 0) && (other.0 != 0 || other.1 != 0);
@@ -391,29 +400,24 @@ fn exhaustive_evaluate(report: &Report, sink: &Sink, small: &Small, shapes: &[Sh
 fn random_map_case(report: &Report, sink: &Sink, i: u64) {
     let mut rng = Rng::for_case(report.seed, i);
     let heavy = false; // operations materialising a 2^32-row bitmap run in `heavy_ops` only
-    let _g = if heavy { Some(HEAVY_LOCK.lock().unwrap()) } else { None };
     let pools = Pools::gen(&mut rng);
-    let max_ops = if heavy { 6 } else { 30 };
     let mut logs: Vec<Vec<String>> = vec![];
-    let r = guarded(|| -> Result<(Option<u64>, u64), Fail> {
+    let mut fails: Vec<Fail> = vec![];
+    let r = guarded(|| -> (Option<u64>, u64) {
         let mut ps = vec![];
         for _ in 0..3 {
-            match gen_pair(&pools, &mut rng, max_ops, heavy) {
-                Ok(p) => {
-                    logs.push(p.log.clone());
-                    ps.push(p)
-                }
-                Err((e, log)) => {
-                    logs.push(log);
-                    return Err(e);
-                }
-            }
+            let p = gen_pair(&pools, &mut rng, 30, heavy, &mut fails);
+            logs.push(p.log.clone());
+            ps.push(p);
         }
         let (a, b, c) = (&ps[0], &ps[1], &ps[2]);
-        let mut n = check_binary(a, b, heavy)?;
-        check_serde(a)?;
-        check_serde(c)?;
-        // From<Range>, FromIterator
+        let (mut n, f) = check_binary(a, b, heavy);
+        fails.extend(f);
+        for x in [a, c] {
+            if let Err(e) = check_serde(x) {
+                fails.push(e);
+            }
+        }
         let pick = |rng: &mut Rng, x: &Pair, y: &Pair| match rng.below(3) {
             0 => None,
             1 => Some(x.clone()),
@@ -421,29 +425,24 @@ fn random_map_case(report: &Report, sink: &Sink, i: u64) {
         };
         let m1 = MaskPair::new(pick(&mut rng, a, c).as_ref(), pick(&mut rng, b, c).as_ref());
         let m2 = MaskPair::new(pick(&mut rng, b, a).as_ref(), pick(&mut rng, c, a).as_ref());
-        check_mask_unary(&m1, &mut rng, &pools)?;
-        n += check_mask_ops(&m1, &m2, c, heavy)?;
-        n += check_mask_ops(&m2, &m1, b, heavy)?;
+        if let Err(e) = check_mask_unary(&m1, &mut rng, &pools) {
+            fails.push(e);
+        }
+        for (x, y, e) in [(&m1, &m2, c), (&m2, &m1, b)] {
+            let (k, f) = check_mask_ops(x, y, e, heavy);
+            n += k;
+            fails.extend(f);
+        }
         let nt = !a.model.is_empty() && !b.model.is_empty();
-        Ok((nt.then(|| hash_of(&(&a.model, &b.model, &c.model))), n))
+        (nt.then(|| hash_of(&(&a.model, &b.model, &c.model))), n)
     });
     match r {
-        Ok(Ok((sig, n))) => {
+        Ok((sig, n)) => {
             report.case(sig);
             report.count("random_set_ops_checked", n);
-            if heavy {
-                report.count("heavy_random_cases", 1);
-            }
             if i % 997 == 3 && report.want_sample() {
                 report.sample(json!({"part": "random-maps", "case": i, "a_ops": logs.first(), "pools": pools.frags}));
             }
-        }
-        Ok(Err((c, d))) => {
-            report.case(None);
-            let part = if c.starts_with("mask-") { "mask:" } else { "treemap:" };
-            sink.violation_lazy(&format!("{part}{c}"), &d, || {
-                json!({"seed": report.seed as i64, "part": "random-maps", "case": i, "detail": d, "op_logs": logs, "fragment_pool": pools.frags})
-            });
         }
         Err(p) => {
             report.case(None);
@@ -451,6 +450,13 @@ fn random_map_case(report: &Report, sink: &Sink, i: u64) {
                 json!({"seed": report.seed as i64, "part": "random-maps", "case": i, "panic": p, "op_logs": logs, "fragment_pool": pools.frags})
             });
         }
+    }
+    for (c, d) in fails {
+        let pre = if c.starts_with("mask-") { "mask:" } else { "treemap:" };
+        sink.violation_lazy(&format!("{pre}{c}"), &d, || {
+            json!({"seed": report.seed as i64, "part": "random-maps", "case": i, "detail": d, "op_logs": logs, "fragment_pool": pools.frags,
+                "replay": format!("e_sets C21 --seed {} --case {i}", report.seed as i64)})
+        });
     }
 }
 
@@ -669,7 +675,7 @@ fn probe_main(name: &str) -> i32 {
 
 fn run_probe(name: &str) -> Result<String, String> {
     let exe = std::env::current_exe().map_err(|e| e.to_string())?;
-    let cmd = format!("ulimit -v 1000000; exec '{}' C21 --probe {}", exe.display(), name);
+    let cmd = format!("ulimit -v 300000; exec '{}' C21 --probe {}", exe.display(), name);
     let mut child = std::process::Command::new("sh")
         .arg("-c")
         .arg(cmd)
@@ -715,17 +721,22 @@ fn probes(report: &Report, sink: &Sink) {
             return;
         }
     }
-    for name in ["range_to_u64_max", "range_in_last_fragment"] {
-        match run_probe(name) {
+    let names = ["range_to_u64_max", "range_in_last_fragment"];
+    let outcomes: Vec<Result<String, String>> = std::thread::scope(|sc| {
+        let hs: Vec<_> = names.iter().map(|n| sc.spawn(move || run_probe(n))).collect();
+        hs.into_iter().map(|h| h.join().unwrap_or_else(|_| Err("probe thread panicked".into()))).collect()
+    });
+    for (name, out) in names.iter().zip(outcomes) {
+        match out {
             Ok(s) if s == "ok" => report.count("child_probes_ok", 1),
             Ok(s) if s == "timeout" => report.inconclusive(&format!("probe {name}: still running after 120 s (killed); not counted as a violation")),
             Ok(s) => {
-                // the child runs under `ulimit -v 1 GB`: a call that should add a handful of rows
+                // the child runs under `ulimit -v 300 MB`: a call that should add a handful of rows
                 // and instead dies from memory exhaustion is a deterministic observation
                 let class = if s.starts_with("mismatch") { "wrong-content" } else { "does-not-terminate-or-exhausts-memory" };
                 sink.violation_lazy(
                     &format!("treemap:insert_range:range-ending-in-fragment-u32max:{class}"),
-                    &format!("probe {name}: {s} (child limited to 1 GB address space; the same call in fragment u32::MAX-1 returns at once)"),
+                    &format!("probe {name}: {s} (child limited to 300 MB address space; the same call in fragment u32::MAX-1 returns at once)"),
                     || json!({"probe": name, "outcome": s, "replay": format!("e_sets C21 --probe {name}")}),
                 );
             }
@@ -856,13 +867,23 @@ pub fn run(args: &Args) -> i32 {
     }
     let small = Small::from_seed(args.seed);
     report.set("small_universe", json!(format!("{small:?}")));
+    if let Some(c) = args.extra.get("case").and_then(|c| c.parse::<u64>().ok()) {
+        // replay of one random case
+        if c % 4 == 0 {
+            random_eval_case(&report, &sink, c);
+        } else {
+            random_map_case(&report, &sink, c);
+        }
+        sink.flush();
+        return report.finish();
+    }
     let parts = args.extra.get("parts").cloned().unwrap_or_else(|| "heavy,probes,maps,masks,eval,random".into());
     let on = |p: &str| parts.split(',').any(|x| x == p);
     let lap = |name: &str| {
         report.set(&format!("t_after_{name}_s"), json!((report.elapsed_s() * 10.0).round() / 10.0));
     };
     std::thread::scope(|sc| {
-        if on("heavy") {
+        if on("heavy") && args.tier == Tier::Thorough {
             sc.spawn(|| heavy_ops(&report, &sink, args.seed));
         }
         if on("probes") {
